@@ -145,16 +145,17 @@ def walk(rep, tier, rng, label, base, po):
                 meta.append((c, case, 1 if dr == "server" else 0))
     out = d.ask_many(reqs)
     # the verified static matcher (Thm/C17c.lean): straight-line definitions are covered for ALL values by `flat_walk`
-    pairs = sorted({(f"{'world' if c['lib'] == 'vanilla' else 'login'}:{case}", c["key"]) for (c, case, s2c) in meta})
-    flat = d.ask_many([f"wsflat {n} {k}" for n, k in pairs])
+    pairs = sorted({(f"{'world' if c['lib'] == 'vanilla' else 'login'}:{case}", c["key"], s2c) for (c, case, s2c) in meta})
+    flat = d.ask_many([f"wsflat {n} {k}" for n, k, _ in pairs])
     n_flat = n_flat_ok = 0
     flat_bad = []
-    for (n, k), o in zip(pairs, flat):
+    for (n, k, s2c), o in zip(pairs, flat):
         if "flat=1" in o:
             n_flat += 1
-            if "match=1" in o:
+            # the verified matcher for this direction (direction-wrapped MSG cases: the arm of this direction)
+            if ("s2c=1" if s2c else "c2s=1") in o:
                 n_flat_ok += 1
-            elif not n.startswith("login"):      # login / MSG cases are wrapped in a direction test: outside the fragment
+            elif not n.startswith("login"):      # login cases sit inside a protocol_version switch: outside the fragment
                 flat_bad.append((n, k))
     d.close()
     classes = collections.Counter()
@@ -179,8 +180,6 @@ def walk(rep, tier, rng, label, base, po):
                        "replay_cmd": f"printf 'load {CORPUS_PATH}\\nload {wsfile}\\nwsbytes {rq.split()[1]} {s2c} {rq.split()[3]} {c['key']} {hexs[:20000]}\\n' | {driver_path()}"})
     for n, k in flat_bad:
         c_ = next(c for (c, case, s2c) in meta if c["key"] == k)
-        if c_["kind"] == "msg" or not n.endswith(":" + c_["name"]):
-            continue        # MSG_* cases serve both directions and are wrapped in a direction test: outside the straight-line fragment
         wit = [1 for (c, case, s2c), o in zip(meta, out) if c["key"] == k and not (o.startswith("ok same") or o.startswith("unsupported"))]
         if not wit:
             rep.violation(f"C17/{k}/static-matcher", f"{k}: the definition is straight-line but the verified matcher rejects its dissector case {n} (a field is walked with another width / encoding / order)",
